@@ -799,7 +799,8 @@ static int sys_cmd (char *line)
           report_fd = pfd[1];
         }
       vh_out ("begin %d", reload_no);
-      for (int i = 1; i < n; i++)
+      /* the programs named after a `|` stay loaded as they are (they are only dumped) */
+      for (int i = 1; i < n && strcmp (tok[i], "|"); i++)
         safe_destruct (tok[i]);
       remove_destructed_objects ();
       reintern ();
@@ -808,7 +809,7 @@ static int sys_cmd (char *line)
         vh_out ("loadfail %s", tok[1]);
       for (int i = 1; i < n; i++)
         {
-          object_t *ob = find_object_by_name (tok[i]);
+          object_t *ob = strcmp (tok[i], "|") ? find_object_by_name (tok[i]) : 0;
           if (ob && ob->prog)
             dump_prog (tok[i], ob->prog);
         }
